@@ -1042,4 +1042,140 @@ theorem run_no_crash (cfg : Config) (hck : cfg.checked = true) (hcodec : cfg.cod
   unfold run feedSegs
   exact reads_no_crash cfg hck hcodec hd hmax _ _ _ rfl
 
+/-! ### the shared buffer pool: every connection starts from empty buffers -/
+
+/-- every buffer waiting in the pool is empty -/
+def Pool.AllEmpty (p : Pool) : Prop := ∀ b ∈ p.q, b = Buf.empty
+
+theorem Pool.init_allEmpty (n : Nat) (cl : Bool) : (Pool.init n cl).AllEmpty := by
+  intro b hb
+  simp [Pool.init] at hb
+  exact hb.2
+
+theorem Pool.acquire_empty (p : Pool) (h : p.AllEmpty) :
+    p.acquire.1 = Buf.empty ∧ p.acquire.2.AllEmpty ∧ p.acquire.2.clears = p.clears := by
+  unfold Pool.acquire
+  cases hq : p.q with
+  | nil => exact ⟨rfl, by intro b hb; exact h b hb, rfl⟩
+  | cons b rest =>
+    refine ⟨h b (by rw [hq]; simp), ?_, rfl⟩
+    intro x hx
+    exact h x (by rw [hq]; simp [hx])
+
+theorem Pool.release_allEmpty (p : Pool) (h : p.AllEmpty) (hc : p.clears = true) (b : Buf) (keep : Bool) :
+    (p.release b keep).AllEmpty ∧ (p.release b keep).clears = true := by
+  unfold Pool.release
+  split
+  · refine ⟨?_, hc⟩
+    intro x hx
+    simp [hc] at hx
+    cases hx with
+    | inl hx => exact h x hx
+    | inr hx => exact hx
+  · exact ⟨h, hc⟩
+
+/-- what the client of `spec` receives from a server that never had another client -/
+def solo (cfg : Config) (spec : ConnSpec) : List Action' := (runConn cfg Buf.empty Buf.empty spec).1
+
+/-- invariant of the server: the pool holds only empty buffers, and every client so far received
+    what it would have received alone -/
+def SrvOK (cfg : Config) (specs : List ConnSpec) (s : Srv) : Prop :=
+  s.pool.AllEmpty ∧ s.pool.clears = true ∧
+  ∀ o ∈ s.outs, ∃ spec, specs[o.1]? = some spec ∧ o.2 = solo cfg spec
+
+theorem srvStep_ok (cfg : Config) (specs : List ConnSpec) (s : Srv) (ev : Ev) (h : SrvOK cfg specs s) :
+    SrvOK cfg specs (srvStep cfg specs s ev) := by
+  obtain ⟨h1, h2, h3⟩ := h
+  cases ev with
+  | start i =>
+    cases hs : specs[i]? with
+    | none => simp only [srvStep, hs]; exact ⟨h1, h2, h3⟩
+    | some spec =>
+      simp only [srvStep, hs]
+      have a1 := Pool.acquire_empty s.pool h1
+      have a2 := Pool.acquire_empty s.pool.acquire.2 a1.2.1
+      refine ⟨a2.2.1, by rw [a2.2.2, a1.2.2]; exact h2, ?_⟩
+      intro o ho
+      simp at ho
+      cases ho with
+      | inl ho => exact h3 o ho
+      | inr ho =>
+        subst ho
+        refine ⟨spec, hs, ?_⟩
+        simp only [solo, a1.1, a2.1]
+  | finish i kr kw =>
+    cases hf : s.live.find? (fun x => x.1 = i) with
+    | none => simp only [srvStep, hf]; exact ⟨h1, h2, h3⟩
+    | some x =>
+      obtain ⟨_, rb, wb⟩ := x
+      simp only [srvStep, hf]
+      have r1 := Pool.release_allEmpty s.pool h1 h2 rb kr
+      have r2 := Pool.release_allEmpty _ r1.1 r1.2 wb kw
+      exact ⟨r2.1, r2.2, h3⟩
+
+theorem serve_ok (cfg : Config) (specs : List ConnSpec) (evs : List Ev) (s : Srv) (h : SrvOK cfg specs s) :
+    SrvOK cfg specs (evs.foldl (srvStep cfg specs) s) := by
+  induction evs generalizing s with
+  | nil => exact h
+  | cons e es ih => exact ih _ (srvStep_ok cfg specs s e h)
+
+/-- without write failures everything a connection produces reaches its client: the pooled,
+    flushing run of a connection that starts from empty buffers is `Conn.run` -/
+theorem runConn_eq_run (cfg : Config) (segs : List Bytes) :
+    (runConn cfg Buf.empty Buf.empty ⟨segs, none⟩).1 = (run cfg segs).map Action'.act := by
+  unfold runConn run feedSegs Buf.empty St.init
+  simp only [List.isEmpty_nil, if_true]
+  have key : ∀ (chunks : List Bytes) (s : IOSt) (acc : St × List Action),
+      s.st = acc.1 → s.out = acc.2 → s.ended = acc.1.closed → (s.ended = false → s.wbuf = []) →
+      (chunks.foldl (ioRead cfg none) s).out =
+        (chunks.foldl (fun (acc : St × List Action) c => let (s', a) := onRead cfg acc.1 c; (s', acc.2 ++ a)) acc).2 := by
+    intro chunks
+    induction chunks with
+    | nil => intro s acc _ h2 _ _; simpa using h2
+    | cons c cs ih =>
+      intro s acc h1 h2 h3 h4
+      simp only [List.foldl_cons]
+      apply ih
+      · -- state
+        unfold ioRead
+        cases he : s.ended with
+        | true =>
+          simp only [if_true]
+          have hcl : acc.1.closed = true := by rw [← h3, he]
+          simp [onRead, hcl, h1]
+        | false =>
+          simp only [Bool.false_eq_true, if_false]
+          rw [h1]
+          split <;> (try split) <;> (try split) <;> simp_all
+      · unfold ioRead
+        cases he : s.ended with
+        | true =>
+          simp only [if_true]
+          have hcl : acc.1.closed = true := by rw [← h3, he]
+          simp [onRead, hcl, h2]
+        | false =>
+          simp only [Bool.false_eq_true, if_false]
+          have hw := h4 he
+          rw [h1, hw]
+          split <;> (try split) <;> (try split) <;> simp_all
+      · unfold ioRead
+        cases he : s.ended with
+        | true =>
+          simp only [if_true]
+          have hcl : acc.1.closed = true := by rw [← h3, he]
+          simp [onRead, hcl, he]
+        | false =>
+          simp only [Bool.false_eq_true, if_false]
+          rw [h1]
+          split <;> (try split) <;> (try split) <;> simp_all
+      · unfold ioRead
+        cases he : s.ended with
+        | true => simp only [if_true]; intro h; rw [he] at h; exact absurd h (by decide)
+        | false =>
+          simp only [Bool.false_eq_true, if_false]
+          have hw := h4 he
+          rw [hw]
+          split <;> (try split) <;> (try split) <;> simp_all
+  rw [key _ _ (⟨[], false, false⟩, []) rfl rfl rfl (fun _ => rfl)]
+
 end RedisVerif.Conn
